@@ -613,26 +613,74 @@ def packetfifo_geometry(ctx, rid):
     requested (dequeue current while enqueuing next) and defaults to the payload depth.  A payload store that is shallower than a
     packet can never take the beat that carries `last`, while the parameter store -- which drives source.valid -- is still empty:
     both sides wait for ever."""
-    fx = fx_of(ctx, PACKET, "PacketFIFO")
-    by = {i.name: i for i in fx.insts if i.call is not None}
-    pay, par = by.get("self.payload_fifo"), by.get("self.param_fifo")
-    ok = pay is not None and [norm(a) for a in pay.call.args] == ["payload_description", "payload_depth", "buffered"]
-    ctx.ob(rid, PACKET, "PacketFIFO", "payload store = SyncFIFO(payload description, payload_depth, buffered)", ok,
-           "" if ok else f"{[norm(a) for a in pay.call.args] if pay else None}: a packet longer than the store dead-locks the FIFO (last beat "
-                         f"refused, nothing to release)", pay.node if pay else 0)
-    ok = par is not None and [norm(a) for a in par.call.args] == ["param_description", "param_depth", "buffered"]
-    ctx.ob(rid, PACKET, "PacketFIFO", "parameter store = SyncFIFO(param description, param_depth, buffered)", ok,
-           "" if ok else f"{[norm(a) for a in par.call.args] if par else None}", par.node if par else 0)
+    from . import lin
+    import copy as _copy
     m = ctx.mod(PACKET)
     init = m.method("PacketFIFO", "__init__")
-    asg = sorted(((norm(n.targets[0]), norm(n.value), n) for n in ast.walk(init) if isinstance(n, ast.Assign) and len(n.targets) == 1),
-                 key=lambda x: (x[2].lineno, x[2].col_offset))
-    d = {}
-    for t, v, n in asg:
-        d.setdefault(t, []).append(v)
-    ok = d.get("param_depth") == ["payload_depth", "param_depth + 1"] or d.get("param_depth") == ["payload_depth", "1 + param_depth"]
-    ctx.ob(rid, PACKET, "PacketFIFO", "param_depth defaults to payload_depth, then + 1", ok, "" if ok else f"param_depth <- {d.get('param_depth')}", init)
-    ok = d.get("payload_description") == ["stream.EndpointDescription(payload_layout=payload_layout)"] and \
-        d.get("param_description") == ["stream.EndpointDescription(param_layout=param_layout)"]
-    ctx.ob(rid, PACKET, "PacketFIFO", "each store carries its own layout", ok,
-           "" if ok else f"{d.get('payload_description')} / {d.get('param_description')}", init)
+    # straight-line symbolic reading of __init__, once for `param_depth is None` and once for a given param_depth
+    envs = {"none": {}, "given": {}}
+
+    def sub(e, env):
+        class S(ast.NodeTransformer):
+            def visit_Name(self, x):
+                if isinstance(x.ctx, ast.Load) and x.id in env:
+                    return _copy.deepcopy(env[x.id])
+                return x
+        return S().visit(_copy.deepcopy(e))
+    stores = {}
+    for st in init.body:
+        if isinstance(st, ast.If):
+            t = st.test
+            isnone = isinstance(t, ast.Compare) and len(t.ops) == 1 and isinstance(t.ops[0], ast.Is) and isinstance(t.left, ast.Name) and \
+                isinstance(t.comparators[0], ast.Constant) and t.comparators[0].value is None
+            for b in st.body:
+                if isinstance(b, ast.Assign) and len(b.targets) == 1 and isinstance(b.targets[0], ast.Name):
+                    if isnone and b.targets[0].id == t.left.id and not st.orelse:
+                        envs["none"][t.left.id] = sub(b.value, envs["none"])
+                    else:
+                        for env in envs.values():
+                            env.pop(b.targets[0].id, None)
+            continue
+        if isinstance(st, ast.Assign):
+            for env in envs.values():
+                v = sub(st.value, env)
+                for t in st.targets:
+                    if isinstance(t, ast.Name):
+                        env[t.id] = v
+                    elif isinstance(t, ast.Attribute) and norm(t) in ("self.payload_fifo", "self.param_fifo"):
+                        stores.setdefault(norm(t), {})[id(env)] = v
+    key = {k: id(v) for k, v in envs.items()}
+
+    def arg(store, br, idx):
+        c = stores.get(store, {}).get(key[br])
+        if isinstance(c, ast.Call) and norm(c.func).endswith("SyncFIFO") and len(c.args) > idx:
+            return c.args[idx]
+        return None
+
+    def L(text):
+        return lin.linform(ast.parse(text, mode="eval").body)
+    one = lin.const(1)
+    for store, layout, want in (("self.payload_fifo", "payload_layout", {"none": L("payload_depth"), "given": L("payload_depth")}),
+                                ("self.param_fifo", "param_layout", {"none": lin.add(L("payload_depth"), one),
+                                                                     "given": lin.add(L("param_depth"), one)})):
+        what = "payload" if store == "self.payload_fifo" else "parameter"
+        depth = {br: arg(store, br, 1) for br in envs}
+        ok = all(d is not None and lin.sign(lin.sub(lin.linform(d), want[br])) == 0 and not lin.sub(lin.linform(d), want[br])
+                 for br, d in depth.items())
+        role = ("payload store = SyncFIFO(payload description, payload_depth, buffered)" if what == "payload" else
+                "parameter store = SyncFIFO(param description, param_depth, buffered)")
+        b = arg(store, "given", 2)
+        ok = ok and b is not None and norm(b) == "buffered"
+        ctx.ob(rid, PACKET, "PacketFIFO", role, ok,
+               "" if ok else f"depth {[(br, norm(d) if d is not None else None) for br, d in depth.items()]}, buffered <- {norm(b) if b is not None else None}"
+               + (": a packet longer than the store dead-locks the FIFO (last beat refused, nothing to release)" if what == "payload" else
+                  ": the parameter store holds one entry more than requested (dequeue current while enqueuing next) and defaults to the payload depth"),
+               init)
+        if what == "parameter":
+            ctx.ob(rid, PACKET, "PacketFIFO", "param_depth defaults to payload_depth, then + 1", ok, "" if ok else "see the parameter store", init)
+        d0 = arg(store, "given", 0)
+        ok = isinstance(d0, ast.Call) and norm(d0.func).endswith("EndpointDescription") and not d0.args and len(d0.keywords) == 1 and \
+            d0.keywords[0].arg == layout and layout in norm(d0.keywords[0].value) and \
+            ("param_layout" if layout == "payload_layout" else "payload_layout") not in norm(d0.keywords[0].value)
+        ctx.ob(rid, PACKET, "PacketFIFO", f"each store carries its own layout ({what})", ok,
+               "" if ok else f"{norm(d0) if d0 is not None else None}", init)
